@@ -14,6 +14,7 @@ import (
 )
 
 type Clause struct {
+	Callee string // assert@<callee>: ghost assertion placed before calls to a callee whose name contains this
 	Kind  string // requires ensures modifies emits calls invariant assigns
 	Label string
 	Props []string
@@ -59,12 +60,24 @@ type Lemma struct {
 
 var propRe = regexp.MustCompile(`C[0-9]{2}`)
 var headRe = regexp.MustCompile(`^func\s+(?:\(\s*\*?\s*([A-Za-z_][A-Za-z0-9_]*)\s*\)\s*)?([A-Za-z_][A-Za-z0-9_$]*)\s*\(([^)]*)\)\s*(?:\(([^)]*)\))?\s*$`)
-var clauseRe = regexp.MustCompile(`^(requires|ensures|modifies|emits|calls|invariant|assigns|trusted|layer|loop|serves)\b\s*(?:\[([^\]]*)\])?\s*(.*)$`)
+var clauseRe = regexp.MustCompile(`^(requires|ensures|modifies|emits|calls|invariant|assigns|trusted|layer|loop|serves|defines|assert@[A-Za-z0-9_.]+)\s*(?:\[([^\]]*)\])?\s*(.*)$`)
 
 type ContractFile struct {
 	Contracts []*Contract
 	Lemmas    []*Lemma
+	SpecFuns  []*SpecFun
 }
+
+// SpecFun is an opaque spec function: uninterpreted in every obligation, except where reveal(f(args))
+// adds the defining equation for those arguments.
+type SpecFun struct {
+	Name   string
+	Params [][2]string
+	Ret    string
+	Body   *Expr
+}
+
+var specFunRe = regexp.MustCompile(`^specfun\s+([A-Za-z_][A-Za-z0-9_]*)\s*\(([^)]*)\)\s*:\s*([A-Za-z0-9_\[\]]+)\s*:=\s*(.*)$`)
 
 // ParseContractFile reads one verif_contracts.go.
 func ParseContractFile(path string) (*ContractFile, error) {
@@ -113,6 +126,31 @@ func ParseContractFile(path string) (*ContractFile, error) {
 	for _, l := range ls {
 		t := l.text
 		if t == "" || strings.HasPrefix(t, "macro ") {
+			continue
+		}
+		if strings.HasPrefix(t, "specfun ") {
+			t2, err := expandMacros(t, macros, 0)
+			if err != nil {
+				return nil, fmt.Errorf("%s:%d: %v", path, l.no, err)
+			}
+			m := specFunRe.FindStringSubmatch(t2)
+			if m == nil {
+				return nil, fmt.Errorf("%s:%d: bad specfun", path, l.no)
+			}
+			sf := &SpecFun{Name: m[1], Ret: m[3]}
+			for _, v := range strings.Split(m[2], ",") {
+				pp := strings.SplitN(strings.TrimSpace(v), ":", 2)
+				if len(pp) != 2 {
+					return nil, fmt.Errorf("%s:%d: bad specfun parameter", path, l.no)
+				}
+				sf.Params = append(sf.Params, [2]string{strings.TrimSpace(pp[0]), strings.TrimSpace(pp[1])})
+			}
+			body, err := ParseExpr(m[4])
+			if err != nil {
+				return nil, fmt.Errorf("%s:%d: %v", path, l.no, err)
+			}
+			sf.Body = body
+			out.SpecFuns = append(out.SpecFuns, sf)
 			continue
 		}
 		if !strings.HasPrefix(t, "func") {
@@ -219,6 +257,27 @@ func ParseContractFile(path string) (*ContractFile, error) {
 			curLoop = -1
 		}
 		cl := &Clause{Kind: kind, Label: label, Props: propRe.FindAllString(label, -1), Text: rest, Loop: curLoop, File: path, Line: l.no}
+		if strings.HasPrefix(kind, "assert@") {
+			cl.Callee = strings.TrimPrefix(kind, "assert@")
+			cl.Kind = "assert"
+		}
+		if kind == "defines" {
+			parts := strings.SplitN(rest, ":=", 2)
+			if len(parts) != 2 {
+				return nil, fmt.Errorf("%s:%d: defines needs ':='", path, l.no)
+			}
+			lhs, err := ParseExpr(strings.TrimSpace(parts[0]))
+			if err != nil {
+				return nil, fmt.Errorf("%s:%d: %v", path, l.no, err)
+			}
+			rhs, err := ParseExpr(strings.TrimSpace(parts[1]))
+			if err != nil {
+				return nil, fmt.Errorf("%s:%d: %v", path, l.no, err)
+			}
+			cl.E = &Expr{Op: "binary", Name: "<==>", Args: []*Expr{lhs, rhs}}
+			cur.Clauses = append(cur.Clauses, cl)
+			continue
+		}
 		if kind == "modifies" || kind == "assigns" {
 			if rest != "none" && rest != "" {
 				for _, part := range splitTop(rest, ',') {
